@@ -21,7 +21,7 @@ theorem availRet_eq {s : St} {a : Sp} (h : Rel s a) (r : Role) (hr : r = .W → 
     simp only [availRet, St.it, succIdx, succFld, Gen.prodSucc, St.pub, Sp.avail, Sp.limit, Sp.pos]
     rw [h.idxP, h.pubC, h.len_eq]
     have h1 := h.leC; have h2 := h.ordC; have h3 := h.ordP; have h4 := h.leP; have h5 := h.ordW; have h6 := h.leW
-    apply Gen.prodAvail_ret_eq _ _ _ hL
+    apply Gen.prodAvail_ret_eq _ _ _ hL h.len_lt
     · cases hW : a.hasW <;> simp [hW] at h2 h5 <;> omega
     · cases hW : a.hasW <;> simp [hW] at h2 h5 <;> omega
   · -- worker: looks at the producer
@@ -30,7 +30,7 @@ theorem availRet_eq {s : St} {a : Sp} (h : Rel s a) (r : Role) (hr : r = .W → 
     rw [h.idxW, h.pubP]
     have h1 := h.leC; have h2 := h.ordC; have h3 := h.ordP; have h4 := h.leP; have h5 := h.ordW hW; have h6 := h.leW
     simp [hW] at h2
-    apply Gen.workAvail_ret_eq _ _ _ hL <;> omega
+    apply Gen.workAvail_ret_eq _ _ _ hL h.len_lt <;> omega
   · -- consumer: looks at the worker if there is one, else at the producer
     simp only [availRet, St.it, succIdx, succFld, Gen.consSucc, Sp.avail, Sp.limit, Sp.pos]
     have h1 := h.leC; have h2 := h.ordC; have h3 := h.ordP; have h4 := h.leP; have h5 := h.ordW; have h6 := h.leW
@@ -38,11 +38,11 @@ theorem availRet_eq {s : St} {a : Sp} (h : Rel s a) (r : Role) (hr : r = .W → 
     · have : s.hasW = false := by rw [← hw]; exact hW
       simp [this, St.pub, hW] at *
       rw [h.idxC, h.pubP]
-      apply Gen.consAvail_ret_eq _ _ _ hL <;> omega
+      apply Gen.consAvail_ret_eq _ _ _ hL h.len_lt <;> omega
     · have : s.hasW = true := by rw [← hw]; exact hW
       simp [this, St.pub, hW] at *
       rw [h.idxC, h.pubW]
-      apply Gen.consAvail_ret_eq _ _ _ hL <;> omega
+      apply Gen.consAvail_ret_eq _ _ _ hL h.len_lt <;> omega
 
 /-- Changing only the remembered availability of `r` to something not above the true availability keeps `Rel`. -/
 theorem Rel.setCached {s : St} {a : Sp} (h : Rel s a) (r : Role) (c : Nat) (hc : c ≤ a.avail r) :
@@ -196,7 +196,8 @@ theorem Rel.frame {s s' : St} {a : Sp} (h : Rel s a) (f : FrameEq s s') (hist' :
     caC := by rw [e5]; exact h.caC
     hist_len := hl
     content := by intro q h1 h2; rw [e1]; exact hc q h1 h2
-    mask_len := h.mask_len }
+    mask_len := h.mask_len
+    len_lt := by rw [e1]; exact h.len_lt }
 
 /-- A per-slot store (`*p = v`, `p.write(v)`, the `*_init` choice) changes exactly that slot. -/
 def StoreOk (store : St → Nat → Nat → St) : Prop :=
@@ -1031,7 +1032,7 @@ theorem resplit_rel {s : St} {a : Sp} (h : Rel s a) (withW : Bool) :
     eqP := fun _ => rfl, eqW := fun _ => rfl, eqC := fun _ => rfl,
     ordP := Nat.zero_le _, ordW := fun _ => Nat.le_refl _, ordC := by simp,
     caP := Nat.zero_le _, caW := fun _ => Nat.zero_le _, caC := Nat.zero_le _,
-    hist_len := Nat.zero_le _, content := fun q _ hq => absurd hq (Nat.not_lt_zero _), mask_len := rfl }
+    hist_len := Nat.zero_le _, content := fun q _ hq => absurd hq (Nat.not_lt_zero _), mask_len := rfl, len_lt := h.len_lt }
 
 end MRB
 
